@@ -325,4 +325,36 @@ def transportExtra (o : ExtraOrder) (ser : Option Dict) (auth : Option String) :
     let extra : Dict := match auth with | some a => [(authKey, a)] | none => []
     match ser with | some d => d | none => extra
 
+/-! ## `EngineContext.session`: one session shared by concurrent workers
+
+The worker that builds the session runs a small program: assignments of the configured settings (`verify`, `auth`,
+`headers`, `cert`, `proxies` — numbered), and the moment the session becomes reachable by the other workers (`publish`:
+the `cached_property` stores what the getter returns).  Another worker looks the session up after `t` steps of that
+program and sends its request straight away: with a published session it uses that object as it is at that moment,
+otherwise it builds a session of its own (the getter is not locked), which it configures completely before using it. -/
+
+inductive SessStep where
+  | set (field : Nat)
+  | publish
+  deriving DecidableEq, Repr
+
+def SessStep.field? : SessStep → Option Nat
+  | .set f => some f
+  | .publish => none
+
+/-- the settings the shared object carries after `t` steps of the builder -/
+def sessionFieldsAt (prog : List SessStep) (t : Nat) : List Nat := (prog.take t).filterMap SessStep.field?
+
+def publishedAt (prog : List SessStep) (t : Nat) : Bool := (prog.take t).contains .publish
+
+/-- the settings on the session the second worker sends its request with -/
+def workerSession (cfg : List Nat) (prog : List SessStep) (t : Nat) : List Nat :=
+  if publishedAt prog t then sessionFieldsAt prog t else cfg
+
+/-- the tree: configure, then return (the value is cached on return) -/
+def publishLast (cfg : List Nat) : List SessStep := cfg.map .set ++ [.publish]
+
+/-- store the new session first, configure it afterwards -/
+def publishFirst (cfg : List Nat) : List SessStep := .publish :: cfg.map .set
+
 end SV.Model.C14
